@@ -130,6 +130,7 @@ class Inliner:
         self.keep = keep or set()
         self.counter = 0
         self.stats = {"inlined_calls": 0, "functions_changed": 0}
+        self.pending_imports: dict[str, set[tuple[str, str]]] = {}
 
     # ------------------------------------------------------------ candidates
     def _callee(self, fi: FuncInfo, call: ast.Call, stack: tuple[str, ...], generator: bool = False) -> FuncInfo | None:
@@ -142,7 +143,10 @@ class Inliner:
         if isinstance(callee.node, ast.Lambda) or callee.qual in stack or callee is fi:
             return None
         if callee.module is not fi.module:
-            return None
+            # a private module-level helper that lives in a sibling module and is imported by name: spliced as well, provided
+            # every module-level name its body reads can be imported next to it without meaning something else here
+            if not self._importable_here(fi, callee, call):
+                return None
         if callee.name == "__init__" or callee.name.startswith("__"):
             return None
         if callee.qual in self.keep:
@@ -201,6 +205,39 @@ class Inliner:
         if on_class and not self._escapes_module(callee):
             return callee
         return None
+
+    def _importable_here(self, fi: FuncInfo, callee: FuncInfo, call: ast.Call) -> bool:
+        import builtins
+
+        if not (callee.cls is None and callee.parent is None and callee.name.startswith("_") and isinstance(call.func, ast.Name)):
+            return False
+        m1, m2 = fi.module, callee.module
+        if not (m1.name.startswith("flowmark") and m2.name.startswith("flowmark")):
+            return False
+        free = {n.id for n in ast.walk(callee.node) if isinstance(n, ast.Name) and isinstance(n.ctx, ast.Load)} - _local_names(callee.node)
+        want: set[str] = set()
+        for g in sorted(free):
+            in2 = g in m2.defs or g in m2.imports
+            if not in2:
+                if hasattr(builtins, g):
+                    continue
+                return False
+            here = self.repo.lookup(g, m1, None)
+            there = self.repo.lookup(g, m2, None)
+            if g in m1.defs or g in m1.imports:
+                same = here is there or (hasattr(here, "dotted") and hasattr(there, "dotted") and here.dotted() == there.dotted())
+                if not same:
+                    return False
+                continue
+            want.add(g)
+        pend = self.pending_imports.setdefault(m1.name, set())
+        # (also names an earlier splice asked for must agree)
+        for (src, g) in pend:
+            if g in want and src != m2.name:
+                return False
+        for g in want:
+            pend.add((m2.name, g))
+        return True
 
     def _escapes_module(self, callee: FuncInfo) -> bool:
         """Is the (public-looking) class helper also used outside its module? Then it stays a function for everybody."""
@@ -1937,6 +1974,23 @@ def build_inlined_repo(root=None, keep: set[str] | None = None) -> tuple[Repo, d
         if new is not None:
             fi.node.body = new.body
             changed += 1
+    # names the cross-module splices need: from <sibling> import <name>, after the docstring and the __future__ imports
+    for mname, wants in inl.pending_imports.items():
+        mod = work.modules.get(mname)
+        if mod is None or not wants:
+            continue
+        pos = 0
+        for i, st in enumerate(mod.tree.body):
+            if (isinstance(st, ast.Expr) and isinstance(st.value, ast.Constant) and isinstance(st.value.value, str) and i == 0) \
+                    or (isinstance(st, ast.ImportFrom) and st.module == "__future__"):
+                pos = i + 1
+        by_src: dict[str, list[str]] = {}
+        for src, g in sorted(wants):
+            by_src.setdefault(src, []).append(g)
+        for src, names in sorted(by_src.items()):
+            imp = ast.ImportFrom(module=src, names=[ast.alias(name=g, asname=None) for g in names], level=0)
+            ast.fix_missing_locations(imp)
+            mod.tree.body.insert(pos, imp)
     sra = 0
     for mod in work.modules.values():
         # (the function nodes of the module trees: after inlining, a nested def inside its parent's new body is a different
